@@ -336,48 +336,97 @@ fn one_case(rng: &mut Rng, _tier: &str) -> (String, bool, String, Vec<&'static s
         }
         w.repo = tx.commit("setup").block_on().unwrap();
     }
+    // A quarter of the cases commit (and reload) after every step like separate jj commands;
+    // the others run the whole history inside one transaction like lib/tests/test_git.rs.
+    let commit_each = rng.chance(1, 4);
+    let mut tx = w.repo.start_transaction();
+    macro_rules! step_done {
+        ($desc:expr) => {
+            if commit_each {
+                w.repo = tx.commit($desc).block_on().unwrap();
+                tx = w.repo.start_transaction();
+            }
+        };
+    }
 
     let mut steps: Vec<String> = vec![];
     let mut f = Features::default();
     let mut sync_kinds: Vec<u8> = vec![];
     let len = rng.range(2, 12);
-    let mut plan: Vec<u8> = (0..len)
-        .map(|_| {
-            let r = rng.below(100);
-            if r < 32 {
-                0 // jj set
-            } else if r < 64 {
-                1 // git set
-            } else if r < 80 {
-                2 // import
-            } else if r < 94 {
-                3 // export
-            } else if r < 97 {
-                4 // set @git
-            } else {
-                5 // set git_refs
+    // plan items: (op, forced name, forced target / commit); op codes as below
+    type Item = (u8, Option<u64>, Option<Vec<u64>>);
+    let mut plan: Vec<Item> = vec![];
+    let mut script = "none";
+    // edge pool: scripted races between the two sides on one name, then the random tail
+    if jj_made.len() >= 2 && rng.chance(3, 10) {
+        let n = *rng.pick(&names);
+        let a = jj_made[0];
+        let b = jj_made[1];
+        let c = *rng.pick(&(2..2 + n_commits).collect::<Vec<u64>>());
+        let jj = |t: Vec<u64>| -> Item { (0, Some(n), Some(t)) };
+        let gitset = |c: u64| -> Item { (1, Some(n), Some(vec![c])) };
+        let imp: Item = (2, None, None);
+        let exp: Item = (3, None, None);
+        let k = rng.below(8);
+        let items: Vec<Item> = match k {
+            // moved in jj, moved / deleted in Git after the last export
+            0 => { script = "move-vs-move"; vec![jj(vec![a]), exp.clone(), gitset(c), jj(vec![b]), exp.clone()] }
+            1 => { script = "move-vs-delete"; vec![jj(vec![a]), exp.clone(), gitset(0), jj(vec![b]), exp.clone()] }
+            2 => { script = "delete-vs-move"; vec![jj(vec![a]), exp.clone(), gitset(b), jj(vec![0]), exp.clone()] }
+            3 => { script = "create-vs-create"; vec![gitset(c), jj(vec![a]), exp.clone()] }
+            // conflicted git_refs entry (as after merging concurrent operations)
+            4 => { script = "conflicted-git-ref"; vec![(5, Some(n), Some(vec![a, 0, b])), jj(vec![a]), exp.clone()] }
+            5 => {
+                script = "conflicted-git-ref-and-bookmark";
+                vec![(5, Some(n), Some(vec![a, 0, b])), jj(vec![b, 0, a]), exp.clone()]
             }
-        })
-        .collect();
-    plan.extend([2, 3, 2]);
+            // both sides move between two imports, then once more while conflicted
+            6 => {
+                script = "conflict-then-more-edits";
+                vec![jj(vec![a]), exp.clone(), gitset(c), jj(vec![b]), imp.clone(), gitset(a), imp.clone(), jj(vec![b]), exp.clone()]
+            }
+            _ => { script = "delete-vs-delete"; vec![jj(vec![a]), exp.clone(), gitset(0), jj(vec![0]), exp.clone()] }
+        };
+        plan.extend(items);
+    }
+    for _ in 0..len {
+        let r = rng.below(100);
+        let op = if r < 32 {
+            0 // jj set
+        } else if r < 64 {
+            1 // git set
+        } else if r < 80 {
+            2 // import
+        } else if r < 94 {
+            3 // export
+        } else if r < 97 {
+            4 // set @git
+        } else {
+            5 // set git_refs
+        };
+        plan.push((op, None, None));
+    }
+    plan.extend([(2, None, None), (3, None, None), (2, None, None)]);
     let all_commits: Vec<u64> = (2..2 + n_commits).collect();
 
-    for op in plan {
+    for (op, forced_name, forced_val) in plan {
         match op {
             0 | 4 | 5 => {
-                let n = *rng.pick(&names);
+                let n = forced_name.unwrap_or_else(|| *rng.pick(&names));
                 let known: Vec<u64> = all_commits
                     .iter()
                     .copied()
                     .filter(|k| {
-                        w.repo.index().has_id(w.ids[*k as usize].as_ref().unwrap()).block_on().unwrap_or(false)
+                        tx.repo().index().has_id(w.ids[*k as usize].as_ref().unwrap()).block_on().unwrap_or(false)
                     })
                     .collect();
                 let pick_commit = |rng: &mut Rng| -> u64 {
                     if known.is_empty() { ROOT } else { *rng.pick(&known) }
                 };
                 let r = rng.below(100);
-                let t: Vec<u64> = if r < 22 {
+                let t: Vec<u64> = if let Some(v) = forced_val {
+                    v
+                } else if r < 22 {
                     vec![0]
                 } else if r < 27 && op == 0 {
                     vec![ROOT]
@@ -391,7 +440,6 @@ fn one_case(rng: &mut Rng, _tier: &str) -> (String, bool, String, Vec<&'static s
                     vec![pick_commit(rng)]
                 };
                 let target = w.to_target(&t);
-                let mut tx = w.repo.start_transaction();
                 let name = bname(n);
                 match op {
                     0 => {
@@ -410,12 +458,18 @@ fn one_case(rng: &mut Rng, _tier: &str) -> (String, bool, String, Vec<&'static s
                         steps.push(coq::app("JjSetGrefs", &[coq::n(n), tgt_term(&t)]));
                     }
                 }
-                w.repo = tx.commit("jj edit").block_on().unwrap();
+                step_done!("jj edit");
             }
             1 => {
-                let n = *rng.pick(&names);
+                let n = forced_name.unwrap_or_else(|| *rng.pick(&names));
                 let full = format!("refs/heads/{}", bname(n));
-                let c = if rng.chance(1, 4) { 0 } else { *rng.pick(&all_commits) };
+                let c = if let Some(v) = forced_val {
+                    v[0]
+                } else if rng.chance(1, 4) {
+                    0
+                } else {
+                    *rng.pick(&all_commits)
+                };
                 if c == 0 {
                     if let Ok(r) = w.git.find_reference(&full) {
                         r.delete().unwrap();
@@ -428,9 +482,8 @@ fn one_case(rng: &mut Rng, _tier: &str) -> (String, bool, String, Vec<&'static s
                 steps.push(coq::app("GitSet", &[coq::n(n), coq::n(c)]));
             }
             2 => {
-                let view = w.repo.view().clone();
+                let view = tx.repo().view().clone();
                 let pre = w.snapshot(&view);
-                let mut tx = w.repo.start_transaction();
                 let res = jjv::catch(|| git::import_refs(tx.repo_mut(), &options).block_on());
                 match res {
                     Some(Ok(stats)) => {
@@ -451,8 +504,8 @@ fn one_case(rng: &mut Rng, _tier: &str) -> (String, bool, String, Vec<&'static s
                         .unwrap_or_default();
                     w.bad(format!("rebase_descendants panicked: {msg}"));
                 }
-                w.repo = tx.commit("import").block_on().unwrap();
-                let view = w.repo.view().clone();
+                step_done!("import");
+                let view = tx.repo().view().clone();
                 let post = w.snapshot(&view);
                 for n in &names {
                     let (l, r, c) = (get(&pre.local, *n), get(&pre.rgit, *n), gget(&pre.git, *n));
@@ -474,9 +527,8 @@ fn one_case(rng: &mut Rng, _tier: &str) -> (String, bool, String, Vec<&'static s
                 steps.push(coq::app("Import", &[snap_term(&pre), snap_term(&post)]));
             }
             _ => {
-                let view = w.repo.view().clone();
+                let view = tx.repo().view().clone();
                 let pre = w.snapshot(&view);
-                let mut tx = w.repo.start_transaction();
                 let res = jjv::catch(|| git::export_refs(tx.repo_mut()));
                 let mut failed: Vec<(u64, u64)> = vec![];
                 match res {
@@ -497,8 +549,8 @@ fn one_case(rng: &mut Rng, _tier: &str) -> (String, bool, String, Vec<&'static s
                     Some(Err(e)) => w.bad(format!("export error: {e}")),
                     None => w.bad("export panicked"),
                 }
-                w.repo = tx.commit("export").block_on().unwrap();
-                let view = w.repo.view().clone();
+                step_done!("export");
+                let view = tx.repo().view().clone();
                 let post = w.snapshot(&view);
                 for n in &names {
                     if gget(&pre.git, *n) != gget(&post.git, *n) {
@@ -517,7 +569,7 @@ fn one_case(rng: &mut Rng, _tier: &str) -> (String, bool, String, Vec<&'static s
                         coq::list(failed.iter(), |(k, c)| coq::pair(coq::n(*k), coq::n(*c))),
                     ],
                 ));
-                if steps.len() as u64 > len && !failed.is_empty() {
+                if !failed.is_empty() && failed.iter().all(|(_, c)| *c == 2) && sync_kinds.ends_with(&[2, 3]) {
                     f.final_failed = true;
                 }
             }
@@ -553,7 +605,7 @@ fn one_case(rng: &mut Rng, _tier: &str) -> (String, bool, String, Vec<&'static s
         feats.push("git-only-commit-imported");
     }
     if f.final_failed {
-        feats.push("failure-in-final-export");
+        feats.push("root-commit-failure-right-after-import");
     }
     const FAILS: [&str; 9] = [
         "",
@@ -574,12 +626,25 @@ fn one_case(rng: &mut Rng, _tier: &str) -> (String, bool, String, Vec<&'static s
     if !w.flags_ok {
         feats.push("flags-not-ok");
     }
+    let script_feat: &'static str = match script {
+        "move-vs-move" => "script:move-vs-move",
+        "move-vs-delete" => "script:move-vs-delete",
+        "delete-vs-move" => "script:delete-vs-move",
+        "create-vs-create" => "script:create-vs-create",
+        "conflicted-git-ref" => "script:conflicted-git-ref",
+        "conflicted-git-ref-and-bookmark" => "script:conflicted-git-ref-and-bookmark",
+        "conflict-then-more-edits" => "script:conflict-then-more-edits",
+        "delete-vs-delete" => "script:delete-vs-delete",
+        _ => "script:none",
+    };
+    feats.push(script_feat);
     let any_fail = f.fail.iter().any(|b| *b);
     let nontrivial = f.git_to_jj || f.jj_to_git || f.conflict_created || any_fail;
     let shape = format!(
-        "names={} conflict={} ff={} fail={} abandon={}",
-        n_names, f.conflict_created, f.ff_resolved, any_fail, abandon
+        "conflict={} ff={} fail={} abandon={} reload={}",
+        f.conflict_created, f.ff_resolved, any_fail, abandon, commit_each
     );
+    drop(tx);
     let notes = w.notes.clone();
     (term, nontrivial, shape, feats, notes)
 }
